@@ -111,7 +111,14 @@ func c17Run(rc *RunCtx, params any) {
 	rc.R.Class = v.Name + "/" + p.Mode
 	applyKnobs(&v.C, p.FlightMs, p.NoBack, 0)
 	applyKnobs(&v.S, p.FlightMs, p.NoBack, 0)
-	const horizon = 16 * time.Minute
+	horizon := 16 * time.Minute
+	if p.NoBack && p.FlightMs > 0 {
+		// without back-off the timer fires every interval for the whole run: keep the number of
+		// expected retransmissions (and the real time a run costs) in the thousands
+		if h := 4000 * time.Duration(p.FlightMs) * time.Millisecond; h < horizon {
+			horizon = h
+		}
+	}
 	rules := NetRules{BaseLatencyNs: int64(p.LatMs) * int64(time.Millisecond), JitterNs: int64(900 * time.Microsecond)}
 	switch p.Mode {
 	case "reset":
